@@ -580,6 +580,7 @@ def gen_lapack_foot(table):
 
 def gen_blas_driver(table): gen_driver(table, 'Blas', 'BlasWrap', 'BlasDriver', 'runBlas', 'callNames', 'C19')
 def gen_lapack_driver(table): gen_driver(table, 'Lapack', 'LapackWrap', 'LapackDriver', 'runLapack', 'callNamesL', 'C19L')
+def gen_base_driver(table): gen_driver(table, 'Base', 'BaseWrap', 'BaseDriver', 'runBase', 'callNamesB', 'C19L')
 
 # ------------------------------------------------------------------------------------------------ evaluation (Python side)
 def wrap32(x):
@@ -646,4 +647,5 @@ if __name__ == '__main__':
     tl = gen_lapack_safety()
     gen_lapack_driver(tl)
     gen_blas_foot(t); gen_lapack_foot(tl)
+    gen_base_driver(gen_base_safety())
     print('generated', len(t), '+', len(tl), 'routines')
